@@ -1,3 +1,5 @@
+use std::cell::Cell;
+
 use ruma_common::serde::Raw;
 use serde::{de::DeserializeOwned, Deserialize, Deserializer};
 
@@ -13,6 +15,38 @@ struct BundledMessageLikeRelationsJsonRepr<E> {
     reference: Option<Box<ReferenceChunk>>,
 }
 
+/// The maximum number of bundled replacements nested in each other that are deserialized.
+///
+/// A bundled replacement is deserialized with a new JSON deserializer, so the recursion limit of
+/// the deserializer of the outer event does not apply to it.
+const MAX_NESTED_REPLACEMENTS: u8 = 8;
+
+thread_local! {
+    /// The number of bundled replacements that are being deserialized on this thread.
+    static NESTED_REPLACEMENTS: Cell<u8> = const { Cell::new(0) };
+}
+
+/// Deserialize a bundled replacement, unless it is nested too deeply in other bundled replacements.
+fn deserialize_replacement<E: DeserializeOwned>(replace: &Raw<Box<E>>) -> Option<Box<E>> {
+    struct Nested;
+
+    impl Drop for Nested {
+        fn drop(&mut self) {
+            NESTED_REPLACEMENTS.with(|nested| nested.set(nested.get() - 1));
+        }
+    }
+
+    let depth = NESTED_REPLACEMENTS.with(Cell::get);
+    if depth >= MAX_NESTED_REPLACEMENTS {
+        return None;
+    }
+
+    NESTED_REPLACEMENTS.with(|nested| nested.set(depth + 1));
+    let _nested = Nested;
+
+    replace.deserialize().ok()
+}
+
 impl<'de, E> Deserialize<'de> for BundledMessageLikeRelations<E>
 where
     E: DeserializeOwned,
@@ -24,11 +58,13 @@ where
         let BundledMessageLikeRelationsJsonRepr { replace, thread, reference } =
             BundledMessageLikeRelationsJsonRepr::deserialize(deserializer)?;
 
-        let (replace, has_invalid_replacement) =
-            match replace.as_ref().map(Raw::deserialize).transpose() {
-                Ok(replace) => (replace, false),
-                Err(_) => (None, true),
-            };
+        let (replace, has_invalid_replacement) = match &replace {
+            Some(raw) => match deserialize_replacement(raw) {
+                Some(replace) => (Some(replace), false),
+                None => (None, true),
+            },
+            None => (None, false),
+        };
 
         Ok(BundledMessageLikeRelations { replace, has_invalid_replacement, thread, reference })
     }
